@@ -103,6 +103,14 @@ def _init_worker():
             return r
 
         cp.ConnectionPlanner.plan_connections = wrapped
+        orig_pop = cp.ConnectionPlanner._populate_wire_connections
+
+        def wrapped_pop(self, *a, **k):
+            r = orig_pop(self, *a, **k)
+            self._verif_routed = len(self.layout_plan.wire_connections)
+            return r
+
+        cp.ConnectionPlanner._populate_wire_connections = wrapped_pop
     except Exception:  # noqa: BLE001
         pass
 
@@ -128,6 +136,19 @@ def _harvest():
         for k, pl in c.layout_plan.entity_placements.items():
             if pl.position is not None:
                 places[k] = [pl.entity_type, float(pl.position[0]), float(pl.position[1]), pl.role]
+        # explicit connections preserved outside the routed edge set (memory gates, latch feedback,
+        # multipliers, self feedback): output side -> input side
+        n_routed = getattr(c, "_verif_routed", None)
+        preserved = []
+        if n_routed is not None:
+            for wc in c.layout_plan.wire_connections[n_routed:]:
+                if (wc.source_side in (None, "output")) and (wc.sink_side in (None, "input")):
+                    preserved.append([wc.source_entity_id, wc.sink_entity_id, wc.signal_name, wc.wire_color, None])
+        have = {(e[0], e[1], e[3]) for e in edges}
+        for e in preserved:
+            if (e[0], e[1], e[3]) not in have:
+                edges.append(e)
+                have.add((e[0], e[1], e[3]))
         # arithmetic self feedback (ConnectionPlanner._add_self_feedback_connections) is a direct wire
         for k, pl in c.layout_plan.entity_placements.items():
             if pl.properties.get("has_self_feedback") and pl.properties.get("feedback_signal"):
